@@ -227,6 +227,10 @@ def expect(op, l, r, n, mode, prec=None):
         return Expect(['B:%d' % (1 if l.val == r.val else 0)])
     if op in ('rkyv_partial_cmp', 'rkyv_cmp', 'rkyv_partial_cmp_dec', 'rkyv_dec_partial_cmp'):
         return Expect(['ORD:%d' % ((l.val > r.val) - (l.val < r.val))])
+    if op == 'serde_to_json':
+        return Expect(['S:' + ('"' + canonical(l.c, l.n) + '"').encode().hex()])
+    if op == 'serde_roundtrip':
+        return Expect([D(l.c, l.n)])
     if op == 'rkyv_roundtrip':
         return Expect([D(l.c, l.n)])
     if op == 'eq':
